@@ -1,8 +1,10 @@
 import collections
 import copy
 import enum
+import functools
 import itertools
 import logging
+import operator
 import typing as tp
 import uuid
 
@@ -55,17 +57,17 @@ class _PatternOperations:
         if oper_type == 'NOT':
             return self.max_pattern - operands[0]
         elif oper_type == 'AND':
-            return operands[0] & operands[1]
+            return functools.reduce(operator.and_, operands)
         elif oper_type == 'NAND':
-            return self.max_pattern - (operands[0] & operands[1])
+            return self.max_pattern - functools.reduce(operator.and_, operands)
         elif oper_type == 'OR':
-            return operands[0] | operands[1]
+            return functools.reduce(operator.or_, operands)
         elif oper_type == 'NOR':
-            return self.max_pattern - (operands[0] | operands[1])
+            return self.max_pattern - functools.reduce(operator.or_, operands)
         elif oper_type == 'XOR':
-            return operands[0] ^ operands[1]
+            return functools.reduce(operator.xor, operands)
         elif oper_type == 'NXOR':
-            return self.max_pattern - (operands[0] ^ operands[1])
+            return self.max_pattern - functools.reduce(operator.xor, operands)
         elif oper_type == 'GEQ':
             return operands[0] | (self.max_pattern - operands[1])
         elif oper_type == 'LT':
